@@ -11,8 +11,9 @@ import ast
 import itertools
 
 from ..core import AnalysisError, dotted
-from ..kinds import value_languages, ANYSET
-from ..lexmodel import LexModel
+from ..kinds import ANYSET
+from ..lexlaws import value_languages_probe
+from ..lexprobe import LexProbe
 from ..pe import Interp, ModuleEnv
 from ..taint import TaintInterp, Obj, check_template
 from ..templates import Gen, GeneratorRaised
@@ -224,8 +225,8 @@ def check(chk, repo, tier):
     it = gen.it
     tmod = repo.mod("transpile")
     TF = tmod.rel
-    lm = LexModel(repo, it)
-    langs = value_languages(lm)
+    lp = LexProbe(repo, it)
+    langs = value_languages_probe(lp)
     chk.trusted_base += ["CPython ast", "re._parser (regex class contents)",
                          "vystatic.pe interpreter subset"]
 
